@@ -396,6 +396,10 @@ def c03(rep, tier, seed):
     """everything released exactly once: ownership invariants of every concurrent spec + accounting on the code"""
     for spec in all_conc_specs(tier):
         run_conc(rep, spec, tier, seed, {"C03"})
+    # sequential pipelines: allocation balance and functor captures after every enumerated program
+    cfgs = [("Pipeline_C02_quick.cfg", "eager and lazy programs of length <= 2 (unique and shared sources): nothing remains"),
+            ("Pipeline_C12_quick.cfg", "lazy programs x start / abandon kinds: nothing remains")]
+    seq.check_pipeline(rep, cfgs, {"C03"}, tier, crash_key=_inner_task_key)
     rep.assumptions += ["ownership is observed through instrumented payload/functor types and the model's ghost state"]
 
 
